@@ -155,3 +155,11 @@ impl MemoryMap {
         }
     }
 }
+
+/// verification hook: keys in LRU order (front = next to spill); add-only, off by default
+#[cfg(feature = "verif-hooks")]
+impl MemoryMap {
+    pub(crate) fn verif_keys(&self) -> Vec<Byte32> {
+        self.0.read().iter().map(|(k, _)| k.clone()).collect()
+    }
+}
